@@ -145,6 +145,29 @@ fn sasl_bind_req(mech: &str, creds: Option<&[u8]>) -> Tag {
     })
 }
 
+#[cfg(ldap3_verif)]
+impl Ldap {
+    /// Read the message ID table: the last ID handed out and the sorted IDs in use.
+    pub fn verif_msgmap(&self) -> (RequestId, Vec<RequestId>) {
+        let msgmap = self.msgmap.lock().expect("msgmap mutex (verif)");
+        let mut in_use: Vec<RequestId> = msgmap.1.iter().copied().collect();
+        in_use.sort_unstable();
+        (msgmap.0, in_use)
+    }
+
+    /// Overwrite the message ID table.
+    pub fn verif_set_msgmap(&self, last: RequestId, in_use: &[RequestId]) {
+        let mut msgmap = self.msgmap.lock().expect("msgmap mutex (verif)");
+        msgmap.0 = last;
+        msgmap.1 = in_use.iter().copied().collect();
+    }
+
+    /// Allocate the next message ID without sending anything.
+    pub fn verif_next_msgid(&mut self) -> RequestId {
+        self.next_msgid()
+    }
+}
+
 impl Ldap {
     fn next_msgid(&mut self) -> i32 {
         let mut msgmap = self.msgmap.lock().expect("msgmap mutex (inc id)");
